@@ -31,15 +31,15 @@
  */
 
 use crate::builders::{
-  BusinessKnowledgeModelEvaluator, DecisionEvaluator, DecisionServiceEvaluator, InputDataContextEvaluator, InputDataEvaluator, ItemDefinitionContextEvaluator,
-  ItemDefinitionEvaluator, ItemDefinitionTypeEvaluator,
+  item_definition_type, BusinessKnowledgeModelEvaluator, DecisionEvaluator, DecisionServiceEvaluator, InputDataContextEvaluator, InputDataEvaluator,
+  ItemDefinitionContextEvaluator, ItemDefinitionEvaluator, ItemDefinitionTypeEvaluator,
 };
-use crate::errors::{err_cyclic_requirements, err_read_lock_failed, err_write_lock_failed};
+use crate::errors::{err_cyclic_item_definitions, err_cyclic_requirements, err_read_lock_failed, err_write_lock_failed};
 use dmntk_common::{HRef, Result};
 use dmntk_feel::context::FeelContext;
 use dmntk_feel::values::Value;
 use dmntk_feel::{value_null, Name};
-use dmntk_model::model::{Definitions, DmnElement};
+use dmntk_model::model::{Definitions, DmnElement, ItemDefinition, ItemDefinitionType, NamedElement};
 use std::collections::{BTreeMap, HashMap};
 use std::sync::{Arc, RwLock, RwLockReadGuard};
 
@@ -105,6 +105,26 @@ fn check_requirements(definitions: &Definitions) -> Result<()> {
   find_cycle(&graph).map_or(Ok(()), |id| Err(err_cyclic_requirements(id)))
 }
 
+/// Checks that no item definition refers to itself through the types it and its components
+/// refer to: the type of such an item definition can not be resolved.
+fn check_item_definitions(definitions: &Definitions) -> Result<()> {
+  fn collect_type_references(item_definition: &ItemDefinition, type_references: &mut Vec<String>) -> Result<()> {
+    match item_definition_type(item_definition)? {
+      ItemDefinitionType::ReferencedType(type_ref) | ItemDefinitionType::CollectionOfReferencedType(type_ref) => type_references.push(type_ref),
+      _ => {}
+    }
+    item_definition
+      .item_components()
+      .iter()
+      .try_for_each(|component| collect_type_references(component, type_references))
+  }
+  let mut graph: BTreeMap<String, Vec<String>> = BTreeMap::new();
+  for item_definition in definitions.item_definitions() {
+    collect_type_references(item_definition, graph.entry(item_definition.name().to_string()).or_default())?;
+  }
+  find_cycle(&graph).map_or(Ok(()), |name| Err(err_cyclic_item_definitions(name)))
+}
+
 ///
 #[derive(Debug)]
 pub enum InvocableType {
@@ -140,6 +160,7 @@ impl ModelEvaluator {
   /// Creates an instance of [ModelEvaluator].
   pub fn new(definitions: &Definitions) -> Result<Arc<Self>> {
     check_requirements(definitions)?;
+    check_item_definitions(definitions)?;
     let model_evaluator = Arc::new(ModelEvaluator::default());
     model_evaluator
       .input_data_evaluator
